@@ -398,6 +398,49 @@ def arrivals_and_close_in_one_pause(kind, action):
         P.sleep = old_sleep
 
 
+def ioport_wrapping(arrivals, pending_before, close_how):
+    """An IOPort wrapped around an input port (with nothing / something pending at that moment) and an output port.  One
+    device read takes in several messages, then the IOPort (or the input port) is closed: every message taken in is handed
+    out, in order, then the port stops."""
+    import mido.ports as P
+    Dev = portsim.make_dev_class()
+    old_sleep = P.sleep
+    cnt = portsim.SleepCounter(limit=50)
+    P.sleep = cnt
+    try:
+        inp = Dev('in', script=[])
+        out = Dev('out', script=[])
+        for k in range(pending_before):
+            inp._messages.append(portsim.msg_of(900 + k))
+        io = P.IOPort(inp, out)
+        inp.script = [(list(arrivals), False)]
+        got = []
+        for _ in range(pending_before + 1):          # until the device has been read once
+            m = io.poll()
+            if m is not None:
+                got.append(portsim.ident(m))
+            if not inp.script:
+                break
+        if inp.script:
+            return None                               # the device was never read: nothing was taken in
+        io.close()
+        try:
+            for m in io:
+                got.append(portsim.ident(m))
+        except portsim.Hang:
+            return f'iteration over the closed IOPort never ended (arrivals {arrivals}, {pending_before} pending when wrapped)'
+        except Exception as e:
+            return f'iteration over the closed IOPort raised {type(e).__name__}: {e}'
+        left = io.poll()
+        want = [900 + k for k in range(pending_before)] + list(arrivals)
+        if got != want or left is not None:
+            return (f'an IOPort wrapped around an input port with {pending_before} message(s) pending; one device read took in {arrivals}; '
+                    f'after close ({close_how}) it handed out {got} (then poll() = {left!r}), taken in: {want}')
+        return None
+    finally:
+        P.sleep = old_sleep
+
+
 def _chunk(cs):
     return [run_history(c) for c in cs]
 
@@ -558,6 +601,14 @@ def run(ck):
             f = arrivals_and_close_in_one_pause(kind, action)
             if f:
                 ck.oracle_fail({'one_pause': [kind, action]}, f)
+    for arrivals in ([1, 2, 3], [7], [4, 5]):
+        for pending_before in (0, 1):
+            for close_how in ('io',):
+                ck.evaluations += 1
+                ck.count('ioport_wrapping')
+                f = ioport_wrapping(arrivals, pending_before, close_how)
+                if f:
+                    ck.oracle_fail({'ioport': [arrivals, pending_before, close_how]}, f)
     mres = [r for part in pool_map(_mchunk, list(chunks(multis, 300))) for r in part]
     mreq, mimpl = [], []
     for (specs, ops), (lines, fail) in zip(multis, mres):
@@ -589,6 +640,8 @@ def oracle(case):
         return reset_independence(case['reset_independence'])
     if 'two_threads' in case:
         return concurrent_case(*case['two_threads'])
+    if 'ioport' in case:
+        return ioport_wrapping(*case['ioport'])
     if 'one_pause' in case:
         return arrivals_and_close_in_one_pause(*case['one_pause'])
     if 'multi' in case:
